@@ -313,6 +313,12 @@ func (k *Keyed[K, V]) resetRoutineLocked(key K, conds ...func(K, V) bool) (exist
 		v.ctxCancel()
 	}
 	prevExitedCh := v.exitedCh
+	// a pending delayed removal of the key stays pending for the new instance
+	pendingRemove := v.deferRemove != nil
+	if pendingRemove {
+		_ = v.deferRemove.Stop()
+		v.deferRemove = nil
+	}
 	routine, data := k.ctorCb(key)
 	v = newRunningRoutine(k, key, routine, data, k.backoffFactory)
 	// until v is started it carries the exit channel of the instance it replaces:
@@ -321,6 +327,9 @@ func (k *Keyed[K, V]) resetRoutineLocked(key K, conds ...func(K, V) bool) (exist
 	k.routines[key] = v
 	if k.ctx != nil {
 		v.start(k.ctx, prevExitedCh, false)
+	}
+	if pendingRemove {
+		v.remove()
 	}
 
 	return true, true
